@@ -307,17 +307,29 @@ def check_history(script, s="2004-01-01T00:00:00Z"):
     saved = list(DT._date_handlers)
     w = {"script": script, "string": s}
     try:
+        made = []
         for i, c in enumerate(script):
-            feedparser.registerDateHandler(make_handler(c, i))
+            if c.startswith("again:"):
+                # the SAME function object registered once more (a plug-in re-imported, a built-in given priority again): it is the newest registration now
+                k = int(c.split(":")[1])
+                h = made[k % len(made)] if made else make_handler("S:9", i)
+            else:
+                h = make_handler(c, i)
+            made.append(h)
+            feedparser.registerDateHandler(h)
         try:
             r = DT._parse_date(s)
         except Exception as e:
             return Finding(("dispatcher", "raises", type(e).__name__), w, "after registering handlers %r: _parse_date raises %s" % (script, type(e).__name__))
         # expected: newest registered handler that returns a truthy 9-sized value, else the built-in answer
         want = None
+        origin = []          # registration i runs the function created at step origin[i]
+        for i, c in enumerate(script):
+            origin.append(origin[int(c.split(":")[1]) % len(origin)] if c.startswith("again:") and origin else i)
         for i in reversed(range(len(script))):
-            if script[i] == "S:9":
-                want = tuple([i] * 9)
+            c0 = script[origin[i]]
+            if c0 == "S:9" or c0.startswith("again:"):          # (a creation step spelled "again:" is the very first one: it made an S:9 handler)
+                want = tuple([origin[i]] * 9)
                 break
         DT._date_handlers[:] = saved
         builtin = DT._parse_date(s)
@@ -385,7 +397,7 @@ def search(ctx, focus=None):
         failures += check_sibling(doc.encode("utf-8"))
     # registration histories
     for _ in range(ctx.n(200, 4000)):
-        script = [rng.choice(["R", "F", "U", "S:9", "S:8", "S:10", "S:1"]) for _ in range(rng.randint(1, 5))]
+        script = [rng.choice(["R", "F", "U", "S:9", "S:9", "S:8", "S:10", "S:1", "again:%d" % rng.randrange(4), "again:%d" % rng.randrange(4)]) for _ in range(rng.randint(1, 6))]
         n += 1
         distinct.add(tuple(script))
         f = check_history(script, rng.choice(["2004-01-01T00:00:00Z", "not a date", "Thu, 01 Jan 2004 19:48:21 GMT"]))
@@ -403,7 +415,7 @@ def search(ctx, focus=None):
                     "rendering variant of every supported format (RFC 822 2/4-digit year, numeric/colon/GMT+hh:mm/named zones, W3CDTF/RFC 3339 with T/space/"
                     "fraction/Z/lower case/date-only forms, MSSQL, basic ISO 8601 incl. ordinal, asctime, Korean x2, Greek, Hungarian, Perforce) parsed by "
                     "_parse_date under 6 TZ settings and compared with an independent era-algorithm oracle; totality on mutated and arbitrary Unicode strings; "
-                    "*_parsed vs _parse_date(sibling) on generated feeds; registerDateHandler histories; distinct = distinct strings / documents / scripts",
+                    "*_parsed vs _parse_date(sibling) on generated feeds; registerDateHandler histories (incl. the SAME function object registered again after others); distinct = distinct strings / documents / scripts",
             "samples": [{"string": "Thu, 01 Jan 04 19:48:21 -0830", "instant": civil.days_from_civil(2004, 1, 2) * 86400 + 4 * 3600 + 18 * 60 + 21}]}
 
 
